@@ -60,6 +60,8 @@ From Coq Require Import Permutation.
 From AV Require Import LatEngine.LatSyntax LatEngine.LatEval LatEngine.LatPlan LatEngine.LatSem LatEngine.LatBase LatEngine.LatHead.
 From AV Require Import LatEngine.LatKeys LatEngine.LatScc LatEngine.LatMain LatEngine.LatVocab LatEngine.LatExample.
 From AV Require Import LatEngine.LatRBase LatEngine.LatRerun LatEngine.LatRExample.
+(* the executable histories the tie evaluates next to the real code (gen/c13_lat.py): built and audited with this file *)
+From AV Require Import LatEngine.LatRScript.
 
 (* a second run() on the unmodified rows of a TERMINATED run changes nothing: every relation is the same list of rows -
    the same number of rows, equal lattice values, even the same order *)
